@@ -46,6 +46,9 @@ class ValidateSwizzleMaskVisitor(Visitor.DefaultVisitor):
                     expr.GetMember().GetName(), componentCount
                 )
 
+        # The swizzled value can contain swizzles of its own (v.zw.x, a[v.z].x)
+        self.v_Generic(expr.GetParent(), ctx)
+
 
 def GetPass():
     from nsl import Pass
